@@ -31,6 +31,21 @@ def boundary_cases(variant):
                     yield head + ["cas%s %d %d" % (wd, o, nw), "get" + wd]
 
 
+def lifecycle_probes():
+    """the global mutex of the simulated back-end: every operation, from the main thread and from a second thread,
+    must take it exactly once (`natives`), a second init must keep it, shutdown + init must bring it back;
+    p_atomic_is_lock_free"""
+    yield ["lockfree", "T lockfree"]
+    allops = ["get32", "set32 7", "inc32", "dec32", "cas32 0 1", "add32 5", "and32 12", "or32 3", "xor32 9",
+              "get64", "set64 4294967301", "cas64 4294967301 1", "add64 5", "and64 12", "or64 3", "xor64 9"]
+    for o in allops:
+        yield ["natives", o, "natives", "T " + o, "natives"]
+    yield ["natives"] + ["T " + o for o in allops] + ["natives"] + allops + ["natives"]
+    yield ["natives", "init", "add32 1", "T add32 1", "natives", "init", "init", "T cas32 2 9", "get32", "natives"]
+    yield ["add32 1", "natives", "shutdown", "natives", "add32 1", "natives", "init", "T add32 1", "inc32", "natives",
+           "shutdown", "natives", "init", "init", "T get32", "natives"]
+
+
 def rand_operand(rng, mask):
     r = rng.random()
     if r < 0.35:
@@ -95,6 +110,25 @@ def random_case(rng, chk, variant, n):
             elif k == "xor":
                 w[wd] ^= v % m
     ops += ["get32", "get64"]
+    if rng.random() < (0.06 if chk.tier != "thorough" else 0.02):
+        # some of the ops on a second thread, native-call counts, life cycle of the global mutex
+        out = ["natives"]
+        for o in ops:
+            r = rng.random()
+            if r < 0.05:
+                out += ["natives", "init"]
+                chk.bump("life:init-again")
+            elif r < 0.08:
+                out += ["natives", "shutdown", "natives"] + (["init"] if rng.random() < 0.8 else [])
+                chk.bump("life:shutdown")
+            elif r < 0.1:
+                out.append("init")
+            if rng.random() < 0.3:
+                out.append("T " + o)
+                chk.bump("second-thread-op")
+            else:
+                out.append(o)
+        ops = out + ["natives", "init"]
     return ops
 
 
@@ -127,7 +161,21 @@ def stress_plan(variants, thorough):
     for v in variants:
         scale = 1 if v != "sim" else 4          # the mutex-simulated model is slower under contention
         plan += [(v, "ticket", [n, it // scale]), (v, "dectest", [n, it // scale]), (v, "casinc", [n, it // (4 * scale)]),
+                 (v, "pticket", [n, it // scale]),                      # pointer-sized word, crossing 2^32
+                 (v, "mix", [n, it // (2 * scale)]), (v, "mix", [3, it // (2 * scale)]),     # every operation mixed on one word
                  (v, "mp", [it // scale]), (v, "sb", [(1000000 if thorough else 600000) // scale])]
+        if v == "c11":
+            plan += [(v, "mix", [n, it], "plain"), (v, "ticket", [n, it], "plain")]       # gcc -O2, as the library is built
+    return plan
+
+
+def quick_plan(variants):
+    """real threads in every run (a few seconds per back-end)"""
+    plan = []
+    for v in variants:
+        scale = 1 if v != "sim" else 2
+        plan += [(v, "mix", [4, 60000 // scale]), (v, "ticket", [4, 40000 // scale]), (v, "pticket", [3, 40000 // scale]),
+                 (v, "dectest", [4, 40000 // scale]), (v, "mp", [20000 // scale])]
     return plan
 
 
@@ -152,7 +200,7 @@ def run(chk):
     if driver_ok:
         for v, fam in fams.items():
             cases = ac.corpus_for("C04", v)
-            bnd = list(boundary_cases(v))
+            bnd = list(boundary_cases(v)) + list(lifecycle_probes())
             rnd = [random_case(rng, chk, v, 10) for _ in range(nrand)]
             allc = cases + bnd + rnd
             op_evals += sum(len(c) for c in allc)
@@ -165,6 +213,8 @@ def run(chk):
         detail.append("model driver does not build: no differential run")
     chk.cov["op_evaluations"] = op_evals
     need_search = (not (proof_ok and driver_ok)) or corr is not None or thm is not None
+    if not (thorough or need_search):
+        found = ac.stress_campaign(chk, cfg, "C04", quick_plan([v for v in VARIANTS if v in fams]), 60, "real-thread run") or found
     if thorough or (need_search and not found):
         found = ac.stress_campaign(chk, cfg, "C04", stress_plan([v for v in VARIANTS if v in fams], thorough), 180 if thorough else 60,
                                    "supporting run" if not need_search else "failing-input search") or found
@@ -182,13 +232,18 @@ def run(chk):
                        "(0, 1, 2, INT_MAX, INT_MIN, 2^31+1, -2, -1, 2^32, 2^32+1, 2^63-1, 2^63, 2^63+1, all-ones; values >= 2^32 reach the "
                        "32-bit ops truncated) plus random stateful sequences of 10 ops (operands uniform 64/32-bit, boundary±3, small; half of the "
                        "compare-and-exchange aimed at the current word); returned value and the word read back from memory compared after every op; "
+                       "directed life-cycle cases and a share of the random ones run ops on a second thread (`T op`), count the native mutex calls of the "
+                       "simulated back-end (`natives`: one lock and one unlock of one and the same mutex per operation, from whichever thread), call "
+                       "p_atomic_thread_init again / shutdown + init, and ask p_atomic_is_lock_free; real threads in every run (all operations mixed on one "
+                       "int and one pointer-sized word crossing 2^32, tickets of both widths, exactly-one-TRUE, message passing); "
                        "a case is distinct by the hash of its op file and non-trivial when it has more than one op; op_evaluations counts single ops")
     chk.cov["exhaustive"] = False
     chk.assumptions += [
         "hardware and compiler implement the __atomic_* / __sync_* builtins as indivisible operations with the stated memory order (trusted, DESIGN §4); "
         "for the lock-free back-ends indivisibility is this contract (one builtin call = one step of the model), not a proved fact",
         "pthread mutexes satisfy POSIX (lock blocks until free, unlock by the owner releases): basis of the bracketed model of patomic-sim.c; "
-        "p_atomic_thread_init () has created pp_atomic_mutex and native lock / unlock do not fail",
+        "p_libsys_init () has called p_atomic_thread_init () (then the mutex exists and stays the same: sim_init_creates, sim_init_idempotent, from the "
+        "translated declaration and life-cycle functions) and native lock / unlock do not fail",
         "`(*atomic)++`, `--(*atomic)`, `oldval + val` on pint / pssize: signed wrap-around is undefined in ISO C but wraps in this build (no -ftrapv); "
         "the sim harness is built without -fsanitize=signed-integer-overflow",
         "sync model: `__sync_synchronize ()` after a plain store / before a plain load gives sequential consistency on x86-TSO only (all_seq_cst_sync "
